@@ -840,13 +840,15 @@ def _mfl_worker(job):
             size = (len(it), sum(it))
         for fid, clause, detail in v:
             res.append((fid, clause, size, detail, case))
-    # keep the smallest per clause in this chunk
+    # keep the smallest per clause in this chunk, and every failing case in enumeration order (`also`)
     best = {}
+    allf = {}
     for fid, clause, size, detail, case in res:
         k = (fid, clause)
+        _note_also(allf, k, case)
         if k not in best or _smaller(size, case, detail, best[k]):
             best[k] = (size, detail, case)
-    return n, nontrivial, best
+    return n, nontrivial, best, allf
 
 
 def _smaller(size, case, detail, kept):
@@ -871,32 +873,54 @@ def _chunks(it, size):
         yield buf
 
 
+ALSO_CAP = 300
+
+
+def _note_also(allf, key, case):
+    """every failing case of a (fid, clause) key in enumeration order, once per case, capped"""
+    lst = allf.setdefault(key, [])
+    if len(lst) < ALSO_CAP and (not lst or lst[-1] is not case):
+        lst.append(case)
+
+
+def _run_indexed(arg):
+    worker, i, job = arg
+    return (i,) + tuple(worker(job))
+
+
 def _run_jobs(worker, jobs):
+    """results of worker(job) as (job number, *result), in any order"""
     import multiprocessing as mp
 
     ctx = mp.get_context('fork')
     with ctx.Pool(NPROC) as pool:
-        for r in pool.imap_unordered(worker, jobs):
+        for r in pool.imap_unordered(_run_indexed, ((worker, i, job) for i, job in enumerate(jobs))):
             yield r
 
 
 def _merge_fails(results, replay_fn):
     cases = nontrivial = 0
     best = {}
-    for n, nt, b in results:
+    parts = {}
+    for i, n, nt, b, allf in results:
         cases += n
         nontrivial += nt
         for k, (size, detail, case) in b.items():
             if k not in best or _smaller(size, case, detail, best[k]):
                 best[k] = (size, detail, case)
+        for k, lst in allf.items():
+            parts.setdefault(k, []).append((i, lst))
     fails = []
     for (fid, clause) in sorted(best):
         size, detail, case = best[(fid, clause)]
         case = dict(case)
         case['fid'] = fid
         case['clause'] = clause
+        # `also`: every failing case of the key in enumeration order (jobs are numbered in enumeration order)
+        also = [dict(c, fid=fid, clause=clause) for _, lst in sorted(parts.get((fid, clause), []), key=lambda p: p[0])
+                for c in lst][:ALSO_CAP]
         fails.append({'fid': fid, 'clause': clause, 'detail': detail, 'case': case,
-                      'replay_fn': replay_fn})
+                      'replay_fn': replay_fn, 'also': also})
     return cases, nontrivial, fails
 
 
@@ -1669,15 +1693,17 @@ def _case_size(case):
 
 def _enum_worker(items):
     best = {}
+    allf = {}
     n = 0
     for case in items:
         n += 1
         for fid, clause, detail in _enum_check(case):
             k = (fid, clause)
+            _note_also(allf, k, case)
             size = _case_size(case)
             if k not in best or _smaller(size, case, detail, best[k]):
                 best[k] = (size, detail, case)
-    return n, n, best
+    return n, n, best, allf
 
 
 def bounded_enumeration(tier):
@@ -1739,6 +1765,12 @@ def _plain(label):
 def _shared_fn(uid, *args):
     _CALLS.append(uid)
     return ('S', None, (uid,) + args)
+
+
+def _replica_fn(*args):
+    """function of replicate tasks without any static input"""
+    _CALLS.append('rep')
+    return ('R', None, args)
 
 
 def _ctx_plain(label):
@@ -1839,29 +1871,43 @@ FN_KINDS = {
 
 
 class _RefWF:
-    """the declared workflow: tasks in the order they entered, and edges"""
+    """the declared workflow: tasks in the order they entered, and edges.  Tasks are told apart by object
+    identity only (never by ==/hash of Task): every declared Task object is a task of its own, also when
+    another task has the same name, function and static input"""
 
     def __init__(self, order=(), edges=()):
         self.order = list(order)
-        self.edges = set(edges)
+        self.edges = []          # list of (pred, task), no pair twice
+        for p, t in edges:
+            self.add_edge(p, t)
 
     def copy(self):
         return _RefWF(self.order, self.edges)
 
+    def has(self, t):
+        return any(x is t for x in self.order)
+
+    def has_edge(self, p, t):
+        return any(a is p and b is t for a, b in self.edges)
+
+    def add_edge(self, p, t):
+        if not self.has_edge(p, t):
+            self.edges.append((p, t))
+
     def add(self, t, preds=()):
-        if t not in self.order:
+        if not self.has(t):
             self.order.append(t)
         for p in preds:
-            self.edges.add((p, t))
+            self.add_edge(p, t)
 
     def inputs(self):
-        return [t for t in self.order if not any(e[1] == t for e in self.edges)]
+        return [t for t in self.order if not any(e[1] is t for e in self.edges)]
 
     def outputs(self):
-        return [t for t in self.order if not any(e[0] == t for e in self.edges)]
+        return [t for t in self.order if not any(e[0] is t for e in self.edges)]
 
     def preds(self, t):
-        return [p for p in self.order if (p, t) in self.edges]
+        return [p for p in self.order if self.has_edge(p, t)]
 
     def insert(self, other, preds=None):
         """None when the connection is N:M (documented ValueError)"""
@@ -1870,57 +1916,80 @@ class _RefWF:
         new = self.copy()
         for t in other.order:
             new.add(t)
-        new.edges |= other.edges
+        for p, t in other.edges:
+            new.add_edge(p, t)
         if len(ins) == len(outs):
             for i, o in zip(ins, outs):
-                new.edges.add((o, i))
+                new.add_edge(o, i)
         elif len(ins) == 1:
             for o in outs:
-                new.edges.add((o, ins[0]))
+                new.add_edge(o, ins[0])
         elif len(outs) == 1:
             for i in ins:
-                new.edges.add((outs[0], i))
+                new.add_edge(outs[0], i)
         else:
             return None
         return new
 
     def replace(self, t, new):
         """the new task enters the workflow now (last), with the edges of the replaced one"""
-        r = _RefWF([x for x in self.order if x != t] + [new],
-                   {(new if a == t else a, new if b == t else b) for a, b in self.edges})
+        r = _RefWF([x for x in self.order if x is not t] + [new],
+                   [(new if a is t else a, new if b is t else b) for a, b in self.edges])
         return r
 
     def plus(self, other):
         new = self.copy()
         for t in other.order:
             new.add(t)
-        new.edges |= other.edges
+        for p, t in other.edges:
+            new.add_edge(p, t)
         return new
 
 
 class _Spec:
-    """what a test task is: label, static inputs, whether it takes the context"""
+    """what a test task is: label, static inputs, whether it takes the context; uid is what the function
+    appends to _CALLS (the first static input, 'rep' for tasks without static input)"""
 
-    def __init__(self, task, label, static, ctx=False):
+    def __init__(self, task, label, static, ctx=False, uid=None):
         self.task = task
         self.label = label
         self.static = tuple(static)
         self.ctx = ctx
+        self.uid = self.static[0] if uid is None else uid
+
+
+class _Specs:
+    """Task object -> _Spec, by object identity (independent of Task.__eq__ / __hash__)"""
+
+    def __init__(self, other=None):
+        self._d = {}
+        if other is not None:
+            self.update(other)
+
+    def __getitem__(self, t):
+        return self._d[id(t)]
+
+    def __setitem__(self, t, spec):
+        assert spec.task is t
+        self._d[id(t)] = spec
+
+    def update(self, other):
+        self._d.update(other._d)
 
 
 def _ref_eval(ref, specs, context=None):
-    """sequential evaluation in topological order; value of every task and the number of sinks"""
+    """sequential evaluation in topological order; value of every task, by id(task)"""
     val = {}
     remaining = list(ref.order)
     while remaining:
         progressed = False
         for t in list(remaining):
             ps = ref.preds(t)
-            if all(p in val for p in ps):
+            if all(id(p) in val for p in ps):
                 s = specs[t]
-                args = s.static + tuple(val[p] for p in ps)
-                val[t] = (s.label, context if s.ctx else None, args)
-                remaining.remove(t)
+                args = s.static + tuple(val[id(p)] for p in ps)
+                val[id(t)] = (s.label, context if s.ctx else None, args)
+                remaining = [x for x in remaining if x is not t]
                 progressed = True
         if not progressed:
             raise RuntimeError('cycle')
@@ -2001,11 +2070,14 @@ def _check_dask_and_run(wf, ref, specs, where, real_run=False):
         out.append((fid, C_WF_ONESINK, f'{where}: {len(sinks)} output tasks but no ValueError'))
         return out
     sink = sinks[0]
-    by_uid = {specs[t].static[0]: t for t in ref.order}
+    by_uid = {specs[t].uid: t for t in ref.order}
     key_of = {}
     bad = None
     if len(dsk) != len(ref.order):
         bad = f'{len(dsk)} keys for {len(ref.order)} tasks'
+    elif len(by_uid) != len(ref.order) or any(not specs[t].static for t in ref.order):
+        # replicates (tasks equal in function and static input): some one-to-one assignment of keys to tasks
+        bad = _match_replicates(dsk, ref, specs, sink)
     else:
         for key, value in dsk.items():
             nstat = None
@@ -2039,7 +2111,7 @@ def _check_dask_and_run(wf, ref, specs, where, real_run=False):
                     break
     if bad:
         out.append((fid, C_WF_DICT, f'{where}: {bad}'))
-    want = _ref_eval(ref, specs)[sink]
+    want = _ref_eval(ref, specs)[id(sink)]
     for workers in (4, 1):
         del _CALLS[:]
         try:
@@ -2051,7 +2123,7 @@ def _check_dask_and_run(wf, ref, specs, where, real_run=False):
             out.append((fid, C_WF_GET, f'{where}: {workers} threads: result {got!r} reference {want!r}'))
             break
         calls = sorted(_CALLS, key=repr)
-        if calls != sorted((specs[t].static[0] for t in ref.order), key=repr):
+        if calls != sorted((specs[t].uid for t in ref.order), key=repr):
             out.append((fid, C_WF_ONCE, f'{where}: {workers} threads: calls {calls}'))
             break
     if real_run:
@@ -2065,13 +2137,52 @@ def _check_dask_and_run(wf, ref, specs, where, real_run=False):
             got = run(wf, None)
             if got != want:
                 out.append((WF_RUN, C_WF_RUN, f'{where}: result {got!r} reference {want!r}'))
-            elif sorted(_CALLS, key=repr) != sorted((specs[t].static[0] for t in ref.order), key=repr):
+            elif sorted(_CALLS, key=repr) != sorted((specs[t].uid for t in ref.order), key=repr):
                 out.append((WF_RUN, C_WF_ONCE, f'{where}: calls {sorted(_CALLS, key=repr)}'))
         except Exception as e:
             out.append((WF_RUN, C_WF_RUN, f'{where}: raised {_exc(e)}'))
         finally:
             D.conf.dask_dispatcher = old
     return out
+
+
+def _match_replicates(dsk, ref, specs, sink):
+    """C_WF_DICT when tasks cannot be told apart by their static input: there must be a one-to-one assignment
+    of the keys to the declared tasks under which every value is (function, *static inputs, *keys of the
+    predecessors in entry order), the sink has the key results and every other key starts with the task name.
+    Returns None or what is wrong."""
+    order = []
+    todo = list(ref.order)
+    while todo:       # topological order: the keys of the predecessors are assigned first
+        nxt = [t for t in todo if all(any(p is x for x in order) for p in ref.preds(t))]
+        if not nxt:
+            return 'cycle'
+        order.append(nxt[0])
+        todo = [t for t in todo if t is not nxt[0]]
+
+    def search(i, key_of, used):
+        if i == len(order):
+            return True
+        t = order[i]
+        s = specs[t]
+        want = (t.function,) + s.static + tuple(key_of[id(p)] for p in ref.preds(t))
+        for key, value in dsk.items():
+            if key in used or len(value) != len(want) or value[0] is not want[0] or tuple(value[1:]) != want[1:]:
+                continue
+            if (key == 'results') != (t is sink) or (t is not sink and not key.startswith(t.name + '-')):
+                continue
+            key_of[id(t)] = key
+            if search(i + 1, key_of, used | {key}):
+                return True
+            del key_of[id(t)]
+        return False
+
+    if search(0, {}, frozenset()):
+        return None
+    shown = {k: (getattr(v[0], '__name__', '?'),) + tuple(v[1:]) for k, v in dsk.items()}
+    decl = [(t.name, [p.name for p in ref.preds(t)]) for t in ref.order]
+    return (f'no one-to-one assignment of the keys to the declared tasks: dict {shown}, declared (task, predecessors '
+            f'in entry order) {decl}')
 
 
 def by_name(ref, task_id):
@@ -2082,15 +2193,29 @@ def by_name(ref, task_id):
 
 
 def _new_tasks(n, names='distinct', prefix='t', start=0):
-    """n test tasks with specs; uid (first static input) identifies the task in calls and dicts"""
+    """n test tasks with specs; uid (first static input) identifies the task in calls and dicts.
+    names: 'distinct'  every task has its own name, function and static input
+           'same'      same name and function, different static input
+           'replica'   replicates: n distinct Task objects equal in name, function and static input
+           'replica2'  two classes of replicates (even / odd position)
+           'replica0'  replicates without any static input"""
     from pharmpy.workflows import Task
 
-    tasks, specs = [], {}
+    tasks, specs = [], _Specs()
     for i in range(start, start + n):
         uid = f'{prefix}{i}'
         if names == 'same':
             t = Task('task', _shared_fn, uid, i * 10)
             specs[t] = _Spec(t, 'S', (uid, i * 10))
+        elif names == 'replica':
+            t = Task('rep', _shared_fn, 'r', 0)
+            specs[t] = _Spec(t, 'S', ('r', 0))
+        elif names == 'replica2':
+            t = Task('rep', _shared_fn, f'r{i % 2}', 0)
+            specs[t] = _Spec(t, 'S', (f'r{i % 2}', 0))
+        elif names == 'replica0':
+            t = Task('rep', _replica_fn)
+            specs[t] = _Spec(t, 'R', (), uid='rep')
         else:
             label = f'L{prefix}{i}'
             t = Task(uid, _plain(label), uid, i * 10)
@@ -2137,6 +2262,32 @@ def _build_dag(tasks, edges, perm, pred_order='asc', variant='late_edges'):
     return wb, ref
 
 
+def _context_replicates(wbc, got, tasks, specs, ref):
+    """C_WF_CTX when tasks are replicates (cannot be told apart by name and function): a task that takes no
+    context is still there itself; one that takes it is replaced by a new task with the same name and
+    function and the context prepended; under some such one-to-one assignment the edges are the declared ones"""
+    cands = []
+    for t in tasks:
+        if specs[t].ctx:
+            want_input = (CTX,) + t.task_input
+            c = [g for g in got if not any(g is x for x in tasks) and g.name == t.name
+                 and g.function is t.function and g.task_input == want_input]
+        else:
+            c = [g for g in got if g is t]
+        if not c:
+            return (f'no task for the {"context-taking " if specs[t].ctx else ""}replicate {t.name} with label '
+                    f'{specs[t].label}: got {[(g.name, g.task_input) for g in got]}')
+        cands.append(c)
+    edges = sorted((id(p), id(g)) for g in got for p in wbc.get_predecessors(g))
+    for choice in itertools.product(*cands):
+        if len({id(g) for g in choice}) != len(tasks):
+            continue
+        new_of = {id(t): g for t, g in zip(tasks, choice)}
+        if edges == sorted((id(new_of[id(a)]), id(new_of[id(b)])) for a, b in ref.edges):
+            return None
+    return 'edges changed'
+
+
 def _check_wf_case(case):
     from pharmpy.workflows import Task, Workflow, WorkflowBuilder
 
@@ -2159,9 +2310,9 @@ def _check_wf_case(case):
         wb2 = WorkflowBuilder(wf)
         out += _check_structure(wb2, ref, where + ' (WorkflowBuilder(workflow))')
     elif kind == 'insert':
-        ta, sa = _new_tasks(case['a'], 'distinct', 'a')
+        ta, sa = _new_tasks(case['a'], case.get('names_a', 'distinct'), 'a')
         tb, sb = _new_tasks(case['b'], case.get('names', 'distinct'), 'b')
-        specs = dict(sa)
+        specs = _Specs(sa)
         specs.update(sb)
         wba, refa = _build_dag(ta, case['ea'], list(range(case['a'])))
         wbb, refb = _build_dag(tb, case['eb'], case['permb'])
@@ -2197,10 +2348,14 @@ def _check_wf_case(case):
         wf = Workflow(wba)
         out += [(fid, c, d) for _, c, d in _check_dask_and_run(wf, ref, specs, where)]
     elif kind == 'replace':
-        tasks, specs = _new_tasks(case['n'], 'distinct')
+        tasks, specs = _new_tasks(case['n'], case.get('names', 'distinct'))
         wb, ref = _build_dag(tasks, case['edges'], list(range(case['n'])))
         old = tasks[case['k']]
-        if case['same_name']:
+        if case['same_name'] and case.get('names', 'distinct') != 'distinct':
+            # one more replicate: a new Task object equal to the replaced one in name, function and input
+            new = Task(old.name, old.function, *old.task_input)
+            specs[new] = _Spec(new, specs[old].label, specs[old].static, uid=specs[old].uid)
+        elif case['same_name']:
             new = old.replace(task_input=('new', 77))
             specs[new] = _Spec(new, specs[old].label, ('new', 77))
         else:
@@ -2216,7 +2371,7 @@ def _check_wf_case(case):
         out += [(fid, c, d) for _, c, d in _check_dask_and_run(Workflow(wb), ref, specs, where)]
     elif kind == 'plus':
         n, k = case['n'], case['k']
-        tasks, specs = _new_tasks(n, 'distinct')
+        tasks, specs = _new_tasks(n, case.get('names', 'distinct'))
         s1 = list(range(0, k + 1))
         s2 = list(range(k, n))
         e1 = [e for e in case['edges'] if e[0] in s1 and e[1] in s1]
@@ -2246,13 +2401,21 @@ def _check_wf_case(case):
         import pharmpy.workflows.dispatchers as D
 
         n = case['n']
-        tasks, specs = [], {}
+        tasks, specs = [], _Specs()
+        shared = {}
         for i, kd in enumerate(case['kinds']):
             factory, takes = FN_KINDS[kd]
-            label = f'L{i}{kd}'
-            t = Task(f't{i}', factory(label), f't{i}', i * 10)
+            if case.get('rep'):
+                # replicates: tasks of the same kind are equal in name, function and static input
+                if kd not in shared:
+                    shared[kd] = factory(f'L{kd}')
+                t = Task('rep', shared[kd], 'r', 0)
+                specs[t] = _Spec(t, f'L{kd}', ('r', 0), ctx=takes)
+            else:
+                label = f'L{i}{kd}'
+                t = Task(f't{i}', factory(label), f't{i}', i * 10)
+                specs[t] = _Spec(t, label, (f't{i}', i * 10), ctx=takes)
             tasks.append(t)
-            specs[t] = _Spec(t, label, (f't{i}', i * 10), ctx=takes)
         wb, ref = _build_dag(tasks, case['edges'], list(range(n)))
         wf = Workflow(wb)
         # insert_context on a builder
@@ -2265,7 +2428,7 @@ def _check_wf_case(case):
             if len(got) != n:
                 bad = f'{len(got)} tasks'
             new_of = {}
-            for t in tasks:
+            for t in ([] if case.get('rep') else tasks):
                 want_input = ((CTX,) if specs[t].ctx else ()) + t.task_input
                 match = [g for g in got if g.name == t.name and g.function is t.function]
                 if len(match) != 1:
@@ -2277,7 +2440,9 @@ def _check_wf_case(case):
                     bad = bad or f'task {t.name} was replaced although it takes no context'
                 else:
                     new_of[t] = match[0]
-            if bad is None:
+            if case.get('rep'):
+                bad = bad or _context_replicates(wbc, got, tasks, specs, ref)
+            elif bad is None:
                 edges = {(id(p), id(g)) for g in got for p in wbc.get_predecessors(g)}
                 if edges != {(id(new_of[a]), id(new_of[b])) for a, b in ref.edges}:
                     bad = 'edges changed'
@@ -2286,7 +2451,7 @@ def _check_wf_case(case):
         except Exception as e:
             out.append((fid, C_WF_CTX, f'{where}: raised {_exc(e)}'))
         # execute_workflow end to end (threaded local_dask dispatcher, the given context)
-        want = _ref_eval(ref, specs, context=CTX)[ref.outputs()[0]]
+        want = _ref_eval(ref, specs, context=CTX)[id(ref.outputs()[0])]
         mixed = any(len({specs[p].ctx for p in ref.preds(t)}) > 1 for t in tasks)
         old = D.conf.dask_dispatcher
         D.conf.dask_dispatcher = 'threaded'
@@ -2295,7 +2460,7 @@ def _check_wf_case(case):
             got = execute_workflow(wf, dispatcher=local_dask, context=CTX)
             if got != want:
                 out.append((WF_EXEC, C_WF_EXEC(mixed), f'{where}: result {got!r} reference {want!r}'))
-            elif sorted(_CALLS) != sorted(specs[t].static[0] for t in tasks):
+            elif sorted(_CALLS) != sorted(specs[t].uid for t in tasks):
                 out.append((WF_EXEC, C_WF_ONCE, f'{where}: calls {sorted(_CALLS)}'))
         except Exception as e:
             out.append((WF_EXEC, C_WF_EXEC(mixed), f'{where}: raised {_exc(e)}'))
@@ -2318,6 +2483,9 @@ def _all_dags(n, one_sink):
         yield edges
 
 
+DAG_NAMES = ('distinct', 'same', 'replica', 'replica2', 'replica0')
+
+
 def _wf_cases(tier):
     quick = tier == 'quick'
     N = 4 if quick else 5
@@ -2326,25 +2494,33 @@ def _wf_cases(tier):
             perms = list(itertools.permutations(range(n)))
             for perm in perms:
                 ident = list(perm) == list(range(n))
-                for names in ('distinct', 'same'):
+                for names in DAG_NAMES:
                     for po in ('asc', 'desc'):
                         yield {'kind': 'dag', 'n': n, 'edges': edges, 'perm': list(perm), 'names': names,
                                'pred_order': po, 'variant': 'late_edges', 'real_run': ident and po == 'asc'}
                     yield {'kind': 'dag', 'n': n, 'edges': edges, 'perm': list(perm), 'names': names,
                            'pred_order': 'asc', 'variant': 'init'}
-            for names in ('distinct', 'same'):
+            for names in DAG_NAMES:
                 for po in ('asc', 'desc'):
                     yield {'kind': 'dag', 'n': n, 'edges': edges, 'perm': list(range(n)), 'names': names,
                            'pred_order': po, 'variant': 'topo'}
             for k in range(n):
                 for same in (False, True):
                     yield {'kind': 'replace', 'n': n, 'edges': edges, 'k': k, 'same_name': same}
+                    if n >= 2:
+                        for names in ('replica', 'replica0'):
+                            yield {'kind': 'replace', 'n': n, 'edges': edges, 'k': k, 'same_name': same,
+                                   'names': names}
             for k in range(0, n):
                 for builder in (False, True):
                     yield {'kind': 'plus', 'n': n, 'edges': edges, 'k': k, 'builder': builder}
                     if n - k >= 2:
                         yield {'kind': 'plus', 'n': n, 'edges': edges, 'k': k, 'builder': builder,
                                'rev': True}
+                    if n >= 2:
+                        for names in ('replica', 'replica2'):
+                            yield {'kind': 'plus', 'n': n, 'edges': edges, 'k': k, 'builder': builder,
+                                   'names': names}
     # insert_workflow: every pair of DAGs (any number of sources and sinks) with a + b <= N tasks
     for a in range(1, N):
         for b in range(1, N - a + 1):
@@ -2360,6 +2536,12 @@ def _wf_cases(tier):
                             if p is None and b >= 2:
                                 yield {'kind': 'insert', 'a': a, 'ea': ea, 'b': b, 'eb': eb,
                                        'permb': list(permb), 'preds': p, 'names': 'same'}
+                            # replicates: within the inserted workflow, and across the two workflows
+                            if p is None and b >= 2:
+                                yield {'kind': 'insert', 'a': a, 'ea': ea, 'b': b, 'eb': eb,
+                                       'permb': list(permb), 'preds': p, 'names': 'replica'}
+                            yield {'kind': 'insert', 'a': a, 'ea': ea, 'b': b, 'eb': eb,
+                                   'permb': list(permb), 'preds': p, 'names': 'replica', 'names_a': 'replica'}
     # insert_context / execute_workflow: every assignment of function kinds
     kinds = list(FN_KINDS)
     for n in (1, 2):
@@ -2372,21 +2554,29 @@ def _wf_cases(tier):
         for edges in _all_dags(n, True):
             for ks in itertools.product(few if n == 3 else few[:3], repeat=n):
                 yield {'kind': 'context', 'n': n, 'edges': edges, 'kinds': list(ks)}
+    # replicates through insert_context / execute_workflow: tasks of the same kind are equal in name,
+    # function and static input
+    for n in (2, 3) if quick else (2, 3, 4):
+        for edges in _all_dags(n, True):
+            for ks in itertools.product(few[:3], repeat=n):
+                yield {'kind': 'context', 'n': n, 'edges': edges, 'kinds': list(ks), 'rep': True}
 
 
 def _wf_worker(items):
     best = {}
+    allf = {}
     n = 0
     for case in items:
         n += 1
         for fid, clause, detail in _check_wf_case(case):
             k = (fid, clause)
+            _note_also(allf, k, case)
             size = (case.get('n', 0) + case.get('a', 0) + case.get('b', 0),
                     len(case.get('edges', [])) + len(case.get('ea', [])) + len(case.get('eb', [])),
                     len(repr(case)))
             if k not in best or _smaller(size, case, detail, best[k]):
                 best[k] = (size, detail, case)
-    return n, n, best
+    return n, n, best, allf
 
 
 def bounded_workflows(tier):
@@ -2397,19 +2587,24 @@ def bounded_workflows(tier):
     quick = tier == 'quick'
     N = 4 if quick else 5
     bound = (f'every DAG with <={N} tasks and one sink (edges i<j), tasks entering in every order, '
-             f'distinct tasks and tasks with the '
-             f'same name and function, predecessor lists in both orders, three ways of building; '
-             f'replace_task of every task; + of every split at every task; insert_workflow of every pair '
+             f'distinct tasks, tasks with the '
+             f'same name and function, and replicates (distinct Task objects equal in name, function and '
+             f'static input: all tasks, two classes of them, without static input), predecessor lists in both '
+             f'orders, three ways of building; '
+             f'replace_task of every task (also among replicates, by one more replicate); + of every split at '
+             f'every task (distinct tasks and replicates); insert_workflow of every pair '
              f'of DAGs with a+b<={N} tasks, every entry order of the inserted one and every predecessor '
-             f'argument (None, one task, lists of <=3 tasks); insert_context and execute_workflow for '
+             f'argument (None, one task, lists of <=3 tasks), with distinct tasks, replicates within the '
+             f'inserted workflow and replicates across both; insert_context and execute_workflow for '
              f'every assignment of {len(FN_KINDS)} function kinds to <=2 tasks and of '
-             f'{3 if quick else 5} kinds to 3{"" if quick else " (3 kinds to 4)"} tasks')
+             f'{3 if quick else 5} kinds to 3{"" if quick else " (3 kinds to 4)"} tasks, and of 3 kinds to '
+             f'2-{3 if quick else 4} replicate tasks (tasks of one kind equal in name, function and input)')
     return {
         'cases': cases,
         'nontrivial': nontrivial,
         'bound': bound,
         'samples': ["dag n=4 edges=[[0,3],[1,2],[2,3]] perm=[2,0,3,1] names=same",
-                    "insert a=2 b=2 preds={'list': [1, 0]}",
+                    "insert a=2 b=2 preds={'list': [1, 0]} names=replica names_a=replica",
                     "context kinds=['ctx_partial', 'plain', 'ctx_wrapped']"],
         'fails': fails,
     }
